@@ -357,6 +357,11 @@ class Resolver:
                     fam = self.receiver_family(e) or self.family_by_definition(f, e, depth + 1)
                 else:
                     it = e
+                    # [s for s in X if ...] ranges over (a subset of) X
+                    while isinstance(it, (ast.ListComp, ast.GeneratorExp, ast.SetComp)) and len(it.generators) == 1 \
+                            and isinstance(it.elt, ast.Name) and isinstance(it.generators[0].target, ast.Name) \
+                            and it.elt.id == it.generators[0].target.id:
+                        it = it.generators[0].iter
                     # enumerate(X) -> element is position 1; X.items() -> value is position 1; X.values() / X -> the element
                     if isinstance(it, ast.Call) and isinstance(it.func, ast.Name) and it.func.id == "enumerate" and it.args:
                         if pos != 1:
